@@ -118,19 +118,28 @@ def apply_global(text):
     return text, fired
 
 
-def apply_local(text, replaces, where):
+def apply_local(text, replaces, where, lost=None, force_drop=None):
     """Function-specific rewrites listed in the contract file
     (`//@replace /regex/ => text`).  Each must fire at least once, otherwise
-    the anchor is lost (exit 2)."""
+    the anchor is lost.  With `lost` (a list) given, a lost anchor is recorded there and the rule skipped instead of
+    raising (tolerant weave, DESIGN 11.10); `force_drop` names rules to skip on purpose (differential run)."""
     fired = {}
     for rx, rep in replaces:
         want = None
         if isinstance(rx, tuple):
             rx, want = rx
+        key = 'replace:' + rx
+        if force_drop is not None and key in force_drop:
+            continue
         nl_before = text.count('\n')
         text2, n = re.subn(rx, rep, text, flags=re.S)
         if n == 0 or (want is not None and n != want):
-            raise ExtractError('lost anchor: replace /%s/ in %s%s' % (rx, where, '' if want is None else ' fired %d times, expected %d' % (n, want)))
+            msg = 'lost anchor: replace /%s/ in %s%s' % (rx, where, '' if want is None else ' fired %d times, expected %d' % (n, want))
+            if lost is None:
+                raise ExtractError(msg)
+            lost.append((key, msg, want is not None and n != 0))
+            if n == 0:
+                continue
         if text2.count('\n') != nl_before:
             # re-balance: only allowed to lose newlines; pad at the end of the
             # replaced region is not known here, so require explicit \n in rep
